@@ -6,8 +6,9 @@ import os
 import re
 
 V = os.path.dirname(os.path.dirname(os.path.abspath(__file__)))
-data = json.load(open(os.path.join(V, "seeded", "mutation_campaign.json")))
-cls_path = os.path.join(V, "seeded", "mutation_classification.json")
+data = json.load(open(os.path.join(V, "seeded", os.environ.get("MC_OUT", "mutation_campaign.json"))))
+TAG = os.environ.get("MC_TAG", "")  # "" = first campaign, "2" = second campaign (markers BEGIN MUTATION2, file mutation_campaign2.md)
+cls_path = os.path.join(V, "seeded", f"mutation_classification{TAG}.json")
 cls = json.load(open(cls_path)) if os.path.exists(cls_path) else {}
 
 
@@ -70,12 +71,12 @@ md = "# Mutation campaign\n\n" + table + "\n\n" + legend + "\n\n## Survivors tha
 md += "| mutant | verdict | statement |\n|---|---|---|\n"
 for k, v, st in sorted(listing):
     md += f"| `{k}` | {v} | `{st[:80].replace('|', '/')}` |\n"
-open(os.path.join(V, "seeded", "mutation_campaign.md"), "w").write(md)
+open(os.path.join(V, "seeded", f"mutation_campaign{TAG}.md"), "w").write(md)
 dp = os.path.join(V, "DESIGN.md")
 s = open(dp).read()
-block = "<!-- BEGIN MUTATION -->\n" + table + "\n\n" + legend + "\n<!-- END MUTATION -->"
-if "<!-- BEGIN MUTATION -->" in s:
-    s = re.sub(r"<!-- BEGIN MUTATION -->.*?<!-- END MUTATION -->", lambda m: block, s, flags=re.S)
+block = f"<!-- BEGIN MUTATION{TAG} -->\n" + table + "\n\n" + legend + f"\n<!-- END MUTATION{TAG} -->"
+if f"<!-- BEGIN MUTATION{TAG} -->" in s:
+    s = re.sub(rf"<!-- BEGIN MUTATION{TAG} -->.*?<!-- END MUTATION{TAG} -->", lambda m: block, s, flags=re.S)
     open(dp, "w").write(s)
 print(table)
 print("open:", [k for k, v, _ in listing if v.startswith("OPEN")][:50])
